@@ -9,6 +9,7 @@ import (
 	"go/types"
 	"os"
 	"sort"
+	"strings"
 
 	"golang.org/x/tools/go/ssa"
 )
@@ -330,7 +331,13 @@ func (m *machine) deadlock() {
 		}
 	}
 	if len(blocked) > 0 {
-		sort.Strings(blocked)
+		sort.Slice(blocked, func(i, j int) bool {
+			ji, jj := strings.Contains(blocked[i], "blocked on verifJoin"), strings.Contains(blocked[j], "blocked on verifJoin")
+			if ji != jj {
+				return jj // the joining main goroutine last: name the goroutine that actually hangs
+			}
+			return blocked[i] < blocked[j]
+		})
 		m.endStack = blocked[0]
 		m.abort(outViolation, fmt.Sprintf("HANG: no goroutine can make progress; %d harness goroutine(s) blocked: %s", len(blocked), blocked[0]))
 	}
